@@ -10,7 +10,6 @@ import (
 	"fmt"
 	"sort"
 	"strings"
-	"sync"
 	"time"
 
 	"verif/sim/simrt"
@@ -45,7 +44,7 @@ type Obj struct {
 // Store is one bucket.
 type Store struct {
 	Name string
-	mu   sync.Mutex
+	mu   simrt.QuietMutex
 	objs map[string][]byte
 	Log  []Write
 	// OpLog records every attempted operation (for "replica saw no writes" style oracles)
